@@ -21,7 +21,7 @@ pub fn install_panic_hook() {
             .map(|l| format!("{}:{}", l.file(), l.line()))
             .unwrap_or_default();
         if let Ok(mut g) = LAST_PANIC.lock() {
-            *g = format!("{} @ {}", msg, loc);
+            *g = format!("{}: {}", loc.replace("/repo/", ""), msg);
         }
     }));
 }
